@@ -161,16 +161,79 @@ func (p *Program) VerifyFuncRebinding(fi *FuncInfo, discharged func([]*Obligatio
 	}
 	mismatch := false
 	for _, u := range res.Unsupported {
-		if strings.Contains(u, "does not type-check") {
+		if strings.Contains(u, "does not type-check") || strings.Contains(u, "contract names loop") || strings.Contains(u, "was never reached by the symbolic execution") {
 			mismatch = true
 		}
 	}
 	if !mismatch {
 		return res
 	}
+	// (1) a loop was added or removed before a hinted loop: try the hints on shifted loop ordinals
+	if len(fi.C.Loops) > 0 && fi.Decl.Body != nil {
+		orig := fi.C.Loops
+		n := len(loopsInOrder(fi.Decl.Body))
+		var ords []int
+		for o := range orig {
+			ords = append(ords, o)
+		}
+		sort.Ints(ords)
+		var cands []map[int]int
+		for d := 1; d <= 3; d++ {
+			for _, sign := range []int{1, -1} {
+				for pos := 0; pos < len(ords); pos++ {
+					m := map[int]int{}
+					ok := true
+					prev := 0
+					for i, o := range ords {
+						t := o
+						if i >= pos {
+							t = o + sign*d
+						}
+						if t < 1 || t > n || t <= prev {
+							ok = false
+							break
+						}
+						prev = t
+						m[o] = t
+					}
+					if ok {
+						cands = append(cands, m)
+					}
+				}
+			}
+		}
+		if len(cands) > 12 {
+			cands = cands[:12]
+		}
+		for _, m := range cands {
+			shifted := map[int]*LoopSpec{}
+			for o, t := range m {
+				shifted[t] = orig[o]
+			}
+			fi.C.Loops = shifted
+			p.resetClauseChecks(fi.C)
+			r2 := p.VerifyFunc(fi)
+			if len(r2.Unsupported) > 0 {
+				continue
+			}
+			if discharged(r2.Obligations) {
+				var parts []string
+				for _, o := range ords {
+					if m[o] != o {
+						parts = append(parts, fmt.Sprintf("loop %d -> loop %d", o, m[o]))
+					}
+				}
+				r2.Assumed = append(r2.Assumed, fmt.Sprintf("loop hints of %s were written for other loop ordinals (a loop was added or removed); applied as %s (accepted because every obligation of the function discharges this way; a wrong assignment could only fail)", r2.Func, strings.Join(parts, ", ")))
+				return r2
+			}
+		}
+		fi.C.Loops = orig
+		p.resetClauseChecks(fi.C)
+	}
+	// (2) a local named by a hint was renamed
 	missing := p.unresolvedLocals(fi)
 	if len(missing) == 0 || len(missing) > 2 {
-		return res
+		return p.VerifyFunc(fi)
 	}
 	locals := p.localNames(fi)
 	if len(locals) > 16 {
